@@ -57,13 +57,19 @@ pub fn run_stream(
     // the instance is replaced by its clone, at another by deserialize(serialize(self)).
     let len = inputs.len();
     // (clone-swap position, serde-swap position): mid-stream for a quarter of the streams, right after
-    // the first input(s) for another quarter (state that has just been seeded)
+    // the first input(s) for another quarter (state that has just been seeded), before the first input
+    // (or straight after the reset of a recycled instance) for another quarter
     let perturb_at: [usize; 2] = if len <= 4 {
         [usize::MAX, usize::MAX]
     } else if len % 4 == 0 {
         [len / 3, (2 * len) / 3 + 1]
     } else if len % 4 == 2 {
         [2, 1]
+    } else if len % 8 == 3 {
+        // identity changes at birth: restored before the first input (a saved configuration loaded later)
+        [1, 0]
+    } else if len % 8 == 7 {
+        [0, 1]
     } else {
         [usize::MAX, usize::MAX]
     };
